@@ -23,7 +23,7 @@ def components():
         out.append(("encoder", nm))
         if nm != "polar8_4":
             out.append(("inverse", nm))
-    for nm in ("syndrome-hamming", "bruteforce-hamming", "bm-bch15_7", "reed-rm13", "syndrome-golay-skip", "wagner-spc4", "bp-tree", "minsum-tree", "sc-polar8_4", "polarbp-polar8_4", "polarbp2-polar8_4", "softrm-rm13", "hamming-inverse"):
+    for nm in ("syndrome-hamming", "bruteforce-hamming", "bm-bch15_7", "reed-rm13", "syndrome-golay-skip", "wagner-spc4", "bp-tree", "minsum-tree", "sc-polar8_4", "polarbp-polar8_4", "polarbp2-polar8_4", "polarbpes-polar8_4", "polarbpesms-polar8_4", "softrm-rm13", "hamming-inverse"):
         if "skip" not in nm:
             out.append(("decoder", nm))
             if nm.split("-")[0] in ("syndrome", "bruteforce", "bm", "reed", "wagner"):
@@ -109,7 +109,7 @@ def build(kind, nm):
         words.append(w)
         return (lambda x: enc.inverse_encode(x)[0]), words, n, True
     if kind in ("decoder", "decoder-errors", "decoder-int32", "decoder-int64"):
-        soft = nm.split("-")[0] in ("wagner", "bp", "minsum", "sc", "polarbp", "polarbp2", "softrm")
+        soft = nm.split("-")[0] in ("wagner", "bp", "minsum", "sc", "polarbp", "polarbp2", "polarbpes", "polarbpesms", "softrm")
         if nm.endswith("hamming") or nm == "hamming-inverse":
             enc = E.HammingCodeEncoder(3)
         elif nm.endswith("bch15_7"):
@@ -127,6 +127,8 @@ def build(kind, nm):
         dec = {"syndrome": lambda: D.SyndromeLookupDecoder(enc), "bruteforce": lambda: D.BruteForceMLDecoder(enc), "bm": lambda: D.BerlekampMasseyDecoder(enc),
                "reed": lambda: D.ReedMullerDecoder(enc), "wagner": lambda: D.WagnerSoftDecisionDecoder(enc), "bp": lambda: D.BeliefPropagationDecoder(enc, bp_iters=8),
                "minsum": lambda: D.MinSumLDPCDecoder(enc, bp_iters=8), "sc": lambda: D.SuccessiveCancellationDecoder(enc), "polarbp": lambda: D.BeliefPropagationPolarDecoder(enc, bp_iters=6), "polarbp2": lambda: D.BeliefPropagationPolarDecoder(enc, bp_iters=2),
+               # early stopping retires a word from the working set once its estimate is consistent: which words are still active is batch-wide state
+               "polarbpes": lambda: D.BeliefPropagationPolarDecoder(enc, bp_iters=6, early_stop=True), "polarbpesms": lambda: D.BeliefPropagationPolarDecoder(enc, bp_iters=5, early_stop=True, regime="min_sum"),
                "softrm": lambda: D.ReedMullerDecoder(enc, input_type="soft"), "hamming": lambda: None}[head]()
         f = (lambda x: dec(x)) if dec is not None else (lambda x: enc.inverse_encode(x)[0])
         if kind == "decoder" and dec is not None:
@@ -165,6 +167,18 @@ def build(kind, nm):
                 tenths = [0.4, 0.2, -0.7, 0.1, 0.7, 0.8, 0.7, 0.8, -0.3, 0.6, -0.9, 0.5, 0.2, -0.4, 0.3, 0.1]
                 pool += [torch.tensor([s_ * 1e25 for s_ in sgn], dtype=f32), torch.tensor([s_ * 1e-25 for s_ in sgn], dtype=f32), torch.tensor([s_ * 1.3 for s_ in sgn], dtype=f32),
                          torch.tensor(tenths[:n], dtype=f32)]
+        if soft and head in ("polarbpes", "polarbpesms"):
+            # noisy words (fixed pseudo-random noise of the order of the signal): some converge in the first iterations, some late, some never
+            st = 12345
+            for j in range(6):
+                vals = []
+                for i, b_ in enumerate(cw[j % 4].tolist()):
+                    st = (st * 1103515245 + 12345) % (1 << 31)
+                    u1 = (st / (1 << 31)) * 2 - 1
+                    st = (st * 1103515245 + 12345) % (1 << 31)
+                    u2 = (st / (1 << 31)) * 2 - 1
+                    vals.append((1 - 2 * float(b_)) * 1.0 + 1.1 * (u1 + u2) + 0.013 * (i + 1))
+                pool.append(torch.tensor(vals, dtype=f32))
         if kind in ("decoder-int32", "decoder-int64"):
             dt = torch.int32 if kind.endswith("32") else torch.int64
             pool = [w.to(dt) for w in pool]
